@@ -20,6 +20,7 @@ ASSUMPTIONS = [
     "A-EXC: exceptions are an extra path outcome; assert failure raises AssertionError (no -O)",
     "extraction drops: docstrings, type annotations, print(...) calls (no-ops); generators are evaluated eagerly",
     "_Enum_Compare.__eq__/__hash__ modelled as identity of the member within its enum class",
+    "A-SIZE: arrays have at most 2^40 elements (sums of masks do not overflow int64)",
 ]
 
 
@@ -62,7 +63,28 @@ class Ctx:
     # obligations -------------------------------------------------------
     def oblige(self, name, hyps, goal, func=None, kind="post", replay=None, info=None, expect="valid"):
         full = f"{self.prop}/{name}"
-        o = Obligation(full, hyps, goal, prop=self.prop, func=func, kind=kind, info=info or {}, replay=replay, expect=expect)
+        from .npmodel import used_cards, venn_axioms
+        hyps = list(hyps)
+        cards = used_cards(hyps + [goal])
+        info = dict(info or {})
+        if cards:
+            vax = venn_axioms(cards)
+            hyps += vax
+            # for replay: region sizes and the base-array values at each region's witness voxel
+            regs = _venn_regions(vax)
+            fns = _vox_functions(hyps + [goal])
+            ev = dict(info.get("evals") or {})
+            preds = _int_predicates(hyps + [goal])
+            for rn, wn in regs:
+                ev[rn] = rn
+                for fnm in fns:
+                    ev[f"{fnm}@{wn}"] = f"({fnm} {wn})"
+                    for pn in preds:
+                        ev[f"{pn}({fnm})@{wn}"] = f"({pn} ({fnm} {wn}))"
+            info["evals"] = ev
+            info["venn_regions"] = regs
+            info["vox_functions"] = fns
+        o = Obligation(full, hyps, goal, prop=self.prop, func=func, kind=kind, info=info, replay=replay, expect=expect)
         o.smt2 = o.to_smt2()
         h = hashlib.sha256(o.smt2.encode()).hexdigest()
         key = (full.rsplit("#", 1)[0], h)
@@ -170,6 +192,58 @@ class Ctx:
     def collect_functions(self):
         for e in self.engines:
             self.functions.update(e.fn_hashes)
+
+
+def _venn_regions(axioms):
+    import re
+    out, seen = [], set()
+    for a in axioms:
+        for m in re.finditer(r"region!([^ ()]+)", a.sexpr()):
+            rn = "region!" + m.group(1)
+            if rn not in seen:
+                seen.add(rn)
+                out.append((rn, "wit!" + m.group(1)))
+    return out
+
+
+def _int_predicates(exprs):
+    names, seen = [], set()
+
+    def walk(t):
+        if t.get_id() in seen:
+            return
+        seen.add(t.get_id())
+        if z3.is_app(t):
+            d = t.decl()
+            if d.arity() == 1 and d.kind() == z3.Z3_OP_UNINTERPRETED and d.domain(0) == z3.IntSort() and d.range() == z3.BoolSort() and d.name() not in names:
+                names.append(d.name())
+            for c in t.children():
+                walk(c)
+        elif z3.is_quantifier(t):
+            walk(t.body())
+    for e in exprs:
+        walk(e)
+    return names
+
+
+def _vox_functions(exprs):
+    names, seen = [], set()
+
+    def walk(t):
+        if t.get_id() in seen:
+            return
+        seen.add(t.get_id())
+        if z3.is_app(t):
+            d = t.decl()
+            if d.arity() == 1 and d.kind() == z3.Z3_OP_UNINTERPRETED and d.domain(0).name() == "Vox" and d.name() not in names:
+                names.append(d.name())
+            for c in t.children():
+                walk(c)
+        elif z3.is_quantifier(t):
+            walk(t.body())
+    for e in exprs:
+        walk(e)
+    return names
 
 
 _CTX = None
